@@ -82,9 +82,73 @@ Definition c08_trig (k : Z) (c : da_case) : bool :=
   | _ => false
   end.
 
-Definition c08_check (c : da_case) : list Z :=
-  flag 0 (corr_state c && corr_bank c) ++ flag 1 (mon_module_holds_open c) ++ flag 2 (mon_payouts c) ++
-  flag 3 (mon_no_new_orphan c) ++ flag 4 (mon_conserved c) ++
+(* 5. record stores: the invalidity records and the proofs of an item are deleted when it is tallied
+   ("challenge records deleted after tally"), and proofs are stored for challenging items only *)
+Definition mon_records_deleted (c : da_case) : bool :=
+  let '(Case pre preb o now r post postb) := c in
+  if is_msg o || negb (r =? 0) then true else
+  forallb (fun x =>
+    if i_status x =? ST_CH then
+      match find_item (i_uri x) (s_items post) with
+      | Some y => if i_status y =? ST_CH then true
+                  else negb (existsb (fun v => v_uri v =? i_uri x) (s_invs post)) &&
+                       negb (existsb (fun q => p_uri q =? i_uri x) (s_prfs post))
+      | None => negb (existsb (fun v => v_uri v =? i_uri x) (s_invs post)) &&
+                negb (existsb (fun q => p_uri q =? i_uri x) (s_prfs post))
+      end
+    else true) (s_items pre)
+  &&
+  forallb (fun q => match find_item (p_uri q) (s_items post) with
+                    | Some y => i_status y =? ST_CH
+                    | None => false
+                    end) (s_prfs post).
+
+(* ---------- conservation over the history ----------
+   A C08 case carries a ghost ledger: for every unresolved item, what was actually deposited for it
+   so far (the module account's observed gain on the accepted publish and on every accepted
+   challenge), kept by the harness independently of the record stores.
+   1h. at a block end the module account loses exactly the deposits of the items resolved in it, minus
+       division dust (same bound as monitor 1);
+   6.  what the state records for an unresolved item (its frozen publish collateral + one frozen
+       invalidity collateral per stored record) is what was deposited for it. *)
+Inductive c08_case := GCase (ghost : list (Z * list Z)) (c : da_case).
+
+Fixpoint dep_of (u : Z) (g : list (Z * list Z)) : option (list Z) :=
+  match g with
+  | [] => None
+  | (u', v) :: g' => if u' =? u then Some v else dep_of u g'
+  end.
+
+Definition mon_history_conserved (h : c08_case) : bool :=
+  let '(GCase g (Case pre preb o now r post postb)) := h in
+  if is_msg o || negb (r =? 0) then true else
+  forallb (fun d =>
+    let paid := fold_right (fun x acc =>
+                  let resolved_now := unresolved x &&
+                                      match find_item (i_uri x) (s_items post) with
+                                      | Some y => negb (unresolved y) | None => true end in
+                  (if resolved_now then match dep_of (i_uri x) g with Some v => amt d v | None => 0 end else 0) + acc)
+                  0 (s_items pre) in
+    let dust := bal (bank_of postb) MODULE d - bal (bank_of preb) MODULE d + paid in
+    (0 <=? dust) && (dust <=? dust_bound pre post)) (nat_range (n_denoms preb)).
+
+Definition mon_recorded_is_deposited (h : c08_case) : bool :=
+  let '(GCase g (Case pre preb o now r post postb)) := h in
+  forallb (fun d =>
+    forallb (fun x =>
+      if unresolved x then
+        match dep_of (i_uri x) g with
+        | Some v => posted d (s_invs pre) x =? amt d v
+        | None => false
+        end
+      else true) (s_items pre)) (nat_range (n_denoms preb)).
+
+Definition c08_check (h : c08_case) : list Z :=
+  let '(GCase g c) := h in
+  flag 0 (corr_state c && corr_bank c) ++
+  flag 1 (mon_module_holds_open c && mon_history_conserved h) ++ flag 2 (mon_payouts c) ++
+  flag 3 (mon_no_new_orphan c) ++ flag 4 (mon_conserved c) ++ flag 5 (mon_records_deleted c) ++
+  flag 6 (mon_recorded_is_deposited h) ++
   flag 101 (negb (c08_trig 1 c)) ++ flag 102 (negb (c08_trig 2 c)).
 
 Definition run := run_cases c08_check.
